@@ -83,16 +83,18 @@ def zip_len(la, lb, storage_sel, with_folder, v0, v1, v2, v3, v4, v5, v6, v7):
             shims.TOK.clear()
             log = tmpl.Log()
             p = tmpl.make_pipeline(t.funcs, log)
-            folder = L.scratch_dir() if with_folder else None
+            # (file_array without a run_folder would make pipefunc call tempfile.mkdtemp(), whose random name is
+            # symbolic under CrossHair)
+            folder = L.scratch_dir() if (with_folder or storage_sel) else None
         storage = "file_array" if storage_sel else "dict"
         a, b = [v0, v1, v2][:la], [v3, v4, v5][:lb]
-        if folder:
+        if with_folder:
             p.map({"a": [v6], "b": [v7]}, run_folder=folder, storage=storage, parallel=False)
             with NoTracing():
                 del log[:]
         if la != lb:
             return _expect_reject(
-                lambda: p.map({"a": a, "b": b}, run_folder=folder, storage=storage, parallel=False, cleanup=not folder), log, folder
+                lambda: p.map({"a": a, "b": b}, run_folder=folder, storage=storage, parallel=False, cleanup=not with_folder), log, folder if with_folder else None
             )
         res = p.map({"a": a, "b": b}, run_folder=folder, storage=storage, parallel=False)
         ref, _ = tmpl.reference(t.funcs, {"a": a, "b": b})
